@@ -90,3 +90,19 @@ MUTANTS += [
     M("c09-generic-name", "C09", "generic stand-in loses module in its name", (V, '        fullname = "%s.%s" % (modname, clsname)', '        fullname = "%s" % (clsname,)')),
     M("c09-revert-tbfmt", "C09,C08", "traceback formatting failure escapes again (revert of 1e81b3f)", (V, "        except Exception:\n            # e.g. a SyntaxError carrying ill-typed details makes the formatter itself raise\n            tbtext", "        except ZeroDivisionError:\n            tbtext")),
 ]
+
+MUTANTS += [
+    # ---- C06
+    M("c06-shared-default", "C06", "connections share the default config dict (no copy)", (P, "        self._config = DEFAULT_CONFIG.copy()", "        self._config = DEFAULT_CONFIG")),
+    M("c06-public-underscore", "C06", "allow_public_attrs accepts single-underscore names", (P, '        plain |= config["allow_public_attrs"] and not name.startswith("_")', '        plain |= config["allow_public_attrs"] and not name.startswith("__")')),
+    M("c06-no-hasattr", "C06", "twin preferred even when the plain name exists", (P, "        if plain and (not has_exposed or hasattr(obj, name)):", "        if plain and not has_exposed:")),
+    M("c06-service-setattr", "C06", "Service no longer denies setattr on itself", (SV, "    def _rpyc_setattr(self, name, value):\n        raise AttributeError(\"access denied\")", "    def _rpyc_setattr_(self, name, value):\n        raise AttributeError(\"access denied\")")),
+    M("c06-callattr-bypass", "C06,C07", "callattr bypasses the policy for dunder-free names", (P, "        obj = self._handle_getattr(obj, name)\n        return self._handle_call(obj, args, kwargs)", "        obj = self._handle_getattr(obj, name) if str(name).startswith('_') else getattr(obj, name)\n        return self._handle_call(obj, args, kwargs)")),
+    M("c06-delattr-perm", "C06", "delattr checks allow_setattr", (P, '        return self._access_attr(obj, name, (), "_rpyc_delattr", "allow_delattr", delattr)', '        return self._access_attr(obj, name, (), "_rpyc_delattr", "allow_setattr", delattr)')),
+    M("c06-nontext-attrerror", "C06", "non-text name raises AttributeError", (P, '            raise TypeError("name must be a string")', '            raise AttributeError("name must be a string")')),
+    M("c06-safe-attrs-shared-set", "C06", "safe list gains a name", (P, "'__truediv__', '__xor__', 'next',", "'__truediv__', '__xor__', 'next', '__dict__',")),
+    M("c06-restricted-wattrs", "C06", "restricted(): wattrs default ignored, attrs writable", (H, "            if name not in wattrs:\n                raise AttributeError(name)", "            if name not in wattrs and name not in attrs:\n                raise AttributeError(name)")),
+    M("c06-exposed-any-prefix", "C06", "exposed check uses 'in' instead of startswith", (P, '        plain |= config["allow_exposed_attrs"] and name.startswith(prefix)', '        plain |= config["allow_exposed_attrs"] and prefix in name')),
+    M("c06-slave-widens-class", "C06", "SlaveService widens via class-level protocol default", (SV, "        self._conn._config.update(dict(", "        from rpyc.core import protocol as _p\n        _p.DEFAULT_CONFIG['allow_public_attrs'] = True\n        self._conn._config.update(dict(")),
+    M("c06-bytes-name-skip", "C06", "bytes names skip the policy check", (P, '        if type(name) is bytes:\n            name = str(name, "utf8")', '        if type(name) is bytes:\n            return default(obj, str(name, "utf8"), *args)')),
+]
